@@ -4,6 +4,7 @@ use std::io::{self, Read, Write};
 
 /// A reader that delivers `data` in the given chunk sizes (then whatever is left at once),
 /// optionally failing at read call number `fail_at` (0-based).
+#[derive(Debug)]
 pub struct ScheduledReader {
     data: Vec<u8>,
     pos: usize,
